@@ -90,4 +90,13 @@ CLAIMED['C05'] = {
     'technique': 'contract-based deductive verification (row-loop invariant over ghost Map/Filter, z3/cvc5) + bounded oracle (exhaustive amount grammar, CSV files)',
 }
 
+CLAIMED['C18'] = {
+    'category': 'proof',
+    'text': 'parse_format_string proved modulo an opaque tokenizer: loop invariants tie field positions, captures, date format and sign mode to positional ghost folds over '
+            'the comma-separated parts (any number of columns), postconditions from the statement, validation exits raise only ValueError, position-reading lemma by induction; '
+            'the tokenizer regex and the `tally inspect` round trip are covered by the labelled bounded oracle (exhaustive small arrangements).',
+    'level_note': _BASE_NOTE + ' The tokenizer regular expression is uninterpreted (A6).',
+    'technique': 'contract-based deductive verification (loop invariants over positional ghost folds, z3/cvc5) + bounded exhaustive-arrangement oracle incl. inspect round trip',
+}
+
 NOT_APPLICABLE = {}
